@@ -4,8 +4,10 @@ root = os.path.dirname(os.path.dirname(os.path.abspath(__file__)))
 sid = sys.argv[1]
 needs = sys.argv[2] if len(sys.argv) > 2 else "-"
 caught = sys.argv[3] if len(sys.argv) > 3 else "-"
-wt = f"/tmp/wt/{sid}"
-dst = os.path.join(root, "seeded", sid)
+wtroot = os.environ.get("WTROOT", "/tmp/wt")
+suffix = os.environ.get("SUFFIX", "")
+wt = f"{wtroot}/{sid}"
+dst = os.path.join(root, "seeded", sid + suffix)
 os.makedirs(dst, exist_ok=True)
 # regenerate the patch from the worktree so that it applies to /repo's HEAD
 diff = subprocess.run(["git", "-C", wt, "diff", "--", "coxeter"], capture_output=True, text=True).stdout
@@ -20,7 +22,7 @@ def last(path):
         return ""
 summary = ""
 try:
-    for line in open("/tmp/wt/suites_summary.log"):
+    for line in open(f"{wtroot}/suites_summary.log"):
         if line.startswith(sid + " "):
             summary = line.strip()
 except Exception:
@@ -44,7 +46,7 @@ if needs == "-":
 if caught == "-":
     caught = "; ".join(f"{c}: {', '.join(d['violated_obligations'][:4])}" for c, d in det.items() if d["exit"]) or "NOT CAUGHT"
 meta = {
-    "property": sid,
+    "property": sid, "round": 2 if suffix else 1,
     "files_touched": sorted({l[6:] for l in diff.splitlines() if l.startswith("+++ b/")}),
     "breaks": open(os.path.join(dst, "notes.md")).read()[:1500] if os.path.exists(os.path.join(dst, "notes.md")) else "",
     "needs_to_manifest": needs,
@@ -52,7 +54,7 @@ meta = {
         "demo_with_change": last(f"/tmp/seed_demo_{sid}.log"),
         "demo_without_change": last(f"/tmp/seed_demo0_{sid}.log"),
         "existing_suite_with_change": summary or "see notes.md (full suite run by the author of the change)",
-        "commands": [f"git -C /repo apply /verif/seeded/{sid}/patch.diff", f"PYTHONPATH=/repo /venv/bin/python /verif/seeded/{sid}/demo.py",
+        "commands": [f"git -C /repo apply /verif/seeded/{sid}{suffix}/patch.diff", f"PYTHONPATH=/repo /venv/bin/python /verif/seeded/{sid}{suffix}/demo.py",
                      "cd /repo && /venv/bin/python -m pytest -q -p no:cacheprovider", f"./check <ID>", "git -C /repo checkout -- ."],
     },
     "caught_by": caught,
